@@ -92,12 +92,46 @@ func (x *Exec) heapSet(st *State, key, sort, term string) {
 	x.heapKeySort(key, sort)
 	st.heap[key] = term
 	x.vc.writes[key] = true
+	for _, d := range x.discStack {
+		d.nonFresh[key] = true
+	}
+}
+
+// heapSetAt: a write at object ref; if ref was allocated inside an active discovery scope the
+// write is "fresh-only" for that scope (objects existing before the scope are untouched).
+func (x *Exec) heapSetAt(st *State, key, sort, term, ref string) {
+	x.heapKeySort(key, sort)
+	st.heap[key] = term
+	x.vc.writes[key] = true
+	seq, isFresh := x.freshRefs[ref]
+	for _, d := range x.discStack {
+		if !isFresh || seq <= d.n0 {
+			d.nonFresh[key] = true
+		}
+	}
 }
 
 func (x *Exec) heapHavoc(st *State, key string) {
 	sort := x.e.keys[key]
 	st.heap[key] = x.vc.Fresh("H."+key, sort)
 	x.vc.writes[key] = true
+	for _, d := range x.discStack {
+		d.nonFresh[key] = true
+	}
+}
+
+// heapHavocFresh havocs key but keeps the content at all objects allocated before allocBefore
+// (the code being summarised writes this location only at objects it allocated itself).
+func (x *Exec) heapHavocFresh(st *State, key, allocBefore string) {
+	sort := x.e.keys[key]
+	old := st.heap[key]
+	if old == "" {
+		old = x.vc.Declare(baseSym(key), sort)
+	}
+	n := x.vc.Fresh("H."+key, sort)
+	st.heap[key] = n
+	x.vc.writes[key] = true
+	x.vc.Fact("(forall ((p Int)) (! (=> (< p " + allocBefore + ") (= (select " + n + " p) (select " + old + " p))) :pattern ((select " + n + " p))))")
 }
 
 // materialize makes every registry key explicit in st.
@@ -122,7 +156,7 @@ func (x *Exec) isThreadLocalKey(key string) bool {
 		}
 	}
 	// pb.X.field
-	if strings.HasPrefix(key, "pb.") {
+	if strings.HasPrefix(key, "protobuf.") {
 		return true
 	}
 	return false
@@ -149,6 +183,8 @@ func (x *Exec) alloc(st *State, hint string) string {
 	top := x.heapGet(st, allocKey, SInt)
 	x.vc.Fact("(> " + baseSym(allocKey) + " 0)")
 	ref := x.vc.Fresh("ref."+hint, SInt)
+	x.allocSeq++
+	x.freshRefs[ref] = x.allocSeq
 	x.vc.Fact(Eq(ref, top))
 	x.vc.Fact("(> " + ref + " 0)")
 	x.heapSet(st, allocKey, SInt, "(+ "+ref+" 1)")
